@@ -13,4 +13,5 @@ let table = [
   ("p2precv", Model.entry_p2precv);
   ("dispatch", Model.entry_dispatch);
   ("abi", Model.entry_abi);
+  ("firstevent", Model.entry_firstevent);
 ]
